@@ -34,7 +34,7 @@ def run_one(name, patch, prop):
         t = subprocess.run(["/venv/bin/python", "-m", "pytest", "-q", "-p", "no:cacheprovider", "python"], cwd=repo, capture_output=True, text=True, env=env, timeout=900)
         tests = (t.stdout.strip().splitlines() or ["?"])[-1]
         t0 = time.time()
-        c = subprocess.run([os.path.join(HERE, "check"), prop, tier], cwd=HERE, capture_output=True, text=True, env=dict(env, VERIF_REPO=repo), timeout=7200)
+        c = subprocess.run([os.path.join(HERE, "check"), prop, tier], cwd=HERE, capture_output=True, text=True, env=dict(env, VERIF_REPO=repo, VERIF_EVIDENCE_DIR=os.path.join(os.path.dirname(repo), "evidence")), timeout=7200)
         oracles = sorted(set(re.findall(r"oracle=(\S+)", c.stdout)))
         whole = sorted(set(re.findall(r"replays/%s-(det|poison)\.json" % prop, c.stdout)))
         return {"name": name, "property": prop, "tests": tests, "tests_pass": " failed" not in tests and "error" not in tests, "check_exit": c.returncode, "detected": c.returncode == 1,
